@@ -29,11 +29,11 @@ ALPHABET = [34, 39, 92, 10, 9, 127, 97, 102, 48, 63, 233, 133, 8232, 128512, 120
 ARGNAMES = ["x", "y", "key", "value"]
 
 
-def rand_text(rng, maxlen=4):
-    return [77] + [rng.choice(ALPHABET) for _ in range(rng.randint(0, maxlen))] + [46]     # 'M' ... '.'
+def rand_text(rng, maxlen=4, minlen=0):
+    return [77] + [rng.choice(ALPHABET) for _ in range(rng.randint(minlen, maxlen))] + [46]     # 'M' ... '.'
 
 
-def situation(rng, k):
+def situation(rng, k, long=False):
     """one Doxygen situation + the interface class it documents"""
     methods = []       # interface: name, args
     members = []       # XML
@@ -57,7 +57,7 @@ def situation(rng, k):
                 params[rng.randrange(len(params))]["decl"] = ""                # no <declname>
             elif r < 0.5:
                 params.append({"decl": "", "defval": True})                     # optional parameter without <declname>
-            members.append({"name": name, "params": params, "doc": rand_text(rng) if rng.random() < 0.85 else []})
+            members.append({"name": name, "params": params, "doc": (rand_text(rng, 1400, 500) if long else rand_text(rng)) if rng.random() < 0.85 else []})
     rng.shuffle(members)
     xml = {"index": rng.choice(["ok"] * 8 + ["missing", "malformed"]), "hasclass": rng.random() < 0.9,
            "classfile": rng.choice(["ok"] * 8 + ["missing", "malformed"]), "members": members}
@@ -175,6 +175,8 @@ def main():
     rep.count("states", r0.distinct)
     rep.count("transitions", r0.generated)
     sits = [situation(rng, k) for k in range(3000 if thorough else 400)]
+    # documentation of realistic length (hundreds of characters, i.e. thousands once escaped)
+    sits += [situation(rng, len(sits) + k, long=True) for k in range(40 if thorough else 8)]
     res = common.pmap(job, sits, chunksize=8)
     # expectations by TLC
     batch = [{"id": s["id"], "xml": s["xml"], "cls": s["cls"],
@@ -194,6 +196,7 @@ def main():
     if len(exp) != len(sits):
         raise RuntimeError("DocTrace: %d results for %d situations" % (len(exp), len(sits)))
     nlit = 0
+    ndecoded = nequiv = 0
     to_compile = []
     for s, o in zip(sits, res):
         wit = {"situation": s, "interface": interface_text(s)}
@@ -213,10 +216,16 @@ def main():
                     rep.violation("binding-without-docstring-literal", "", dict(wit, binding=k))
                     continue
                 if got != want["literal"]:
-                    cls = ""
-                    rep.violation("wrong-docstring-or-wrong-literal", cls,
-                                  dict(wit, run=run + 1, binding=k, observed="".join(map(chr, got)),
-                                       expected="".join(map(chr, want["literal"]))))
+                    # another spelling than DocString!Embed's is fine if the COMPILER decodes it to the extracted text
+                    obs_lit = "".join(map(chr, got))
+                    dec, err = (None, "not tried") if ndecoded >= 40 else compile_literals([obs_lit])
+                    ndecoded += 1
+                    if dec is not None and bytes(dec[0]) == "".join(map(chr, want["text"])).encode("utf-8"):
+                        nequiv += 1
+                        continue
+                    rep.violation("wrong-docstring-or-wrong-literal" if dec is not None or err == "not tried" else "generated-literal-does-not-compile", "",
+                                  dict(wit, run=run + 1, binding=k, observed=obs_lit[:600],
+                                       expected="".join(map(chr, want["literal"]))[:600], compiler=err[:300]))
                 elif run == 0 and want["text"] and len(to_compile) < (400 if thorough else 60):
                     to_compile.append((want, s["id"], k))
     # the compiler as decoder
@@ -240,6 +249,7 @@ def main():
     rep.cov["distinct_nontrivial"] = len({json.dumps(s["xml"], sort_keys=True) for s in sits})
     rep.cov["literals_compared"] = nlit
     rep.cov["literals_compiled"] = len(to_compile)
+    rep.cov["literals_spelled_differently_but_decoding_to_the_text"] = nequiv
     rep.cov["rule"] = "one situation = one Doxygen XML tree + interface class; every method binding's literal of two successive wrap_file runs is compared"
     rep.sample({"situation": sits[0]})
     return rep.finish()
